@@ -54,6 +54,10 @@ func exprString(fset *token.FileSet, e ast.Expr) string {
 	return b.String()
 }
 
+func siteLit(fset *token.FileSet, base string, pos token.Pos) ast.Expr {
+	return &ast.BasicLit{Kind: token.STRING, Value: strconv.Quote(fmt.Sprintf("%s:%d", base, fset.Position(pos).Line))}
+}
+
 func stripParens(e ast.Expr) ast.Expr {
 	for {
 		p, ok := e.(*ast.ParenExpr)
@@ -174,7 +178,7 @@ func main() {
 					if write {
 						fn = "MapW"
 					}
-					n.X = call(sel("verifrt", fn), n.X)
+					n.X = call(sel("verifrt", fn), siteLit(p.Fset, base, n.Pos()), n.X)
 					rep.MapHooks++
 					changed = true
 				case *ast.CallExpr:
@@ -190,7 +194,7 @@ func main() {
 						if id.Name == "delete" {
 							fn = "MapW"
 						}
-						n.Args[0] = call(sel("verifrt", fn), n.Args[0])
+						n.Args[0] = call(sel("verifrt", fn), siteLit(p.Fset, base, n.Pos()), n.Args[0])
 						rep.MapHooks++
 						changed = true
 					}
@@ -220,7 +224,7 @@ func main() {
 					}
 					x := n.X
 					if isFieldSel(x) {
-						x = call(sel("verifrt", "MapR"), x)
+						x = call(sel("verifrt", "MapR"), siteLit(p.Fset, base, n.Pos()), x)
 						rep.MapHooks++
 					}
 					body := &ast.BlockStmt{List: append(pre, n.Body.List...)}
